@@ -150,3 +150,34 @@ def single_preemption_cases(shard, nshards, run, pairs=False):
                         continue
                     yield name, dict(copy.deepcopy(b), sched={
                         'mode': 'preempt', 'at': [[a, 1], [b2, 1]]})
+
+
+def single_line_cases(shard, nshards, run, variants=('plain', 'cancel'),
+                      picks=(0,), kinds=None):
+    """Every scenario of the matrix (plain / with a cancel racing the
+    submission task) with ONE forced preemption at every executed source line
+    of s3transfer in turn (sys.monitoring LINE events), switching to the
+    k-th other runnable thread for k in picks.  Races that do not go through
+    a synchronisation primitive (a dropped lock, a check-then-act on a plain
+    attribute) are reached this way."""
+    mat = scenario_matrix(kinds)
+    allc = []
+    for name, base in mat:
+        if 'plain' in variants:
+            allc.append((name, base))
+        if 'cancel' in variants:
+            for at in (10, 12, 14):
+                c = copy.deepcopy(base)
+                c['cancels'] = [{'t': 0, 'at': at}]
+                allc.append((f'{name}+cancel@{at}', c))
+    idx = 0
+    for name, base in allc:
+        b = copy.deepcopy(base)
+        R = run(dict(b, count_lines=True))
+        n = R.nlines
+        for ln in range(1, n + 1):
+            idx += 1
+            if idx % nshards != shard:
+                continue
+            for k in picks:
+                yield name, dict(copy.deepcopy(b), lines=[[ln, k]])
